@@ -640,6 +640,13 @@ class _Num(SV):
                     return mk_num(a / b)
                 return mk_num(floordiv_term(a, b))
             raise Unsupported("floor division of reals")
+        # int / x: CPython first converts the integer to a float, which is exact only up to 2**53.  Floats are treated
+        # as reals (assumption A-float) only where that conversion is exact on this path; an integer operand that the
+        # path condition does not bound is outside the subset (seeded change C34-2: int(2**bits / 2 - 1)).
+        for t in (a, b):
+            if z3.is_int(t) and not _int_fits_float(t):
+                raise Unsupported("true division with an integer operand not known to be below 2**53 in magnitude: "
+                                  "the conversion to float may round")
         if z3.is_int(a):
             a = z3.ToReal(a)
         if z3.is_int(b):
@@ -949,6 +956,17 @@ def slice_bounds(sl, n):
     hi = clamp(sl.stop, n)
     ln = hi - lo if pc_entails(hi - lo >= 0) else z3.If(hi - lo < 0, 0, hi - lo)
     return z3.simplify(lo), z3.simplify(ln)
+
+
+def _int_fits_float(t):
+    """is the integer term t within [-2**53, 2**53] on every model of the current path condition?"""
+    if z3.is_int_value(t):
+        return abs(t.as_long()) <= 2 ** 53
+    c = CTX
+    if c is None or c.concrete:
+        return True
+    r, _ = _isolated_check(list(c.pc) + [z3.Or(t > 2 ** 53, t < -(2 ** 53))], 2.0, False)
+    return r == "unsat"
 
 
 def pc_entails(cond):
